@@ -34,8 +34,11 @@ type VerifHooks struct {
 var verifH *VerifHooks
 
 // VerifInstall installs (or with nil removes) the hook table.
+//
+//go:norace
 func VerifInstall(h *VerifHooks) { verifH = h }
 
+//go:norace
 func verifYield(site int) {
 	if h := verifH; h != nil && h.Yield != nil {
 		h.Yield(site)
